@@ -820,7 +820,7 @@ macro_rules! bits_uni {
 	($($t:ty, $b:expr);*) => {$(
 		impl Uni for BitVec<$t, Lsb0> {
 			fn desc() -> String { format!("(TBits {} false)", $b) }
-			fn gen(r: &mut Rng, d: u32) -> Self { gen_bits(r, d, |n| BitVec::<$t, Lsb0>::repeat(false, n), |v, i, b| v.set(i, b), |v, k| { let mut w = v.split_off(k); std::mem::swap(v, &mut w); }) }
+			fn gen(r: &mut Rng, d: u32) -> Self { gen_bits(r, d, |n| BitVec::<$t, Lsb0>::repeat(false, n), |v, i, b| v.set(i, b), |v, k| { let mut w = v.split_off(k); std::mem::swap(v, &mut w); }, |v, n| v.truncate(n)) }
 			fn val(&self) -> String { bits_val(self.len(), self.iter().map(|b| *b)) }
 			fn same(&self, o: &Self) -> bool { self == o }
 			fn payload(&self) -> u128 { ((self.len() + 8 * $b - 1) / (8 * $b) * $b) as u128 }
@@ -830,7 +830,7 @@ macro_rules! bits_uni {
 		}
 		impl Uni for BitVec<$t, Msb0> {
 			fn desc() -> String { format!("(TBits {} true)", $b) }
-			fn gen(r: &mut Rng, d: u32) -> Self { gen_bits(r, d, |n| BitVec::<$t, Msb0>::repeat(false, n), |v, i, b| v.set(i, b), |v, k| { let mut w = v.split_off(k); std::mem::swap(v, &mut w); }) }
+			fn gen(r: &mut Rng, d: u32) -> Self { gen_bits(r, d, |n| BitVec::<$t, Msb0>::repeat(false, n), |v, i, b| v.set(i, b), |v, k| { let mut w = v.split_off(k); std::mem::swap(v, &mut w); }, |v, n| v.truncate(n)) }
 			fn val(&self) -> String { bits_val(self.len(), self.iter().map(|b| *b)) }
 			fn same(&self, o: &Self) -> bool { self == o }
 			fn payload(&self) -> u128 { ((self.len() + 8 * $b - 1) / (8 * $b) * $b) as u128 }
@@ -849,7 +849,7 @@ fn bits_val(n: usize, it: impl Iterator<Item = bool>) -> String {
 	}
 	format!("(vbitsn {} {})", n, blist(&bytes))
 }
-fn gen_bits<V>(r: &mut Rng, d: u32, mk: impl Fn(usize) -> V, set: impl Fn(&mut V, usize, bool), drop_front: impl Fn(&mut V, usize)) -> V {
+fn gen_bits<V>(r: &mut Rng, d: u32, mk: impl Fn(usize) -> V, set: impl Fn(&mut V, usize, bool), drop_front: impl Fn(&mut V, usize), trunc: impl Fn(&mut V, usize)) -> V {
 	let n = match r.below(8) {
 		0 => 0,
 		1 => r.range(1, 9) as usize,
@@ -857,13 +857,17 @@ fn gen_bits<V>(r: &mut Rng, d: u32, mk: impl Fn(usize) -> V, set: impl Fn(&mut V
 		3 if d == 0 => 8 * 16384 + r.below(3) as usize - 1,
 		_ => r.below(140) as usize,
 	};
-	// build with a head offset: allocate k extra bits in front and drop them
-	let k = r.below(20) as usize;
-	let mut v = mk(n + k);
-	for i in 0..n + k {
+	// build with a head offset and dirty dead bits: allocate k extra bits in front and t behind,
+	// set them at random, then drop the front ones and truncate the rear ones (the storage words
+	// keep whatever the dropped bits held; a third of the values start at bit 0 of their store)
+	let k = if r.chance(1, 3) { 0 } else { r.below(20) as usize };
+	let t = r.below(12) as usize;
+	let mut v = mk(n + k + t);
+	for i in 0..n + k + t {
 		set(&mut v, i, r.chance(1, 2));
 	}
 	drop_front(&mut v, k);
+	trunc(&mut v, n);
 	v
 }
 bits_uni!(u8, 1; u16, 2; u32, 4; u64, 8);
@@ -1047,6 +1051,100 @@ impl Uni for TrP {
 	}
 	fn val(&self) -> String {
 		nest("VPair", "VUnit", &["VUnit".into(), self.1.val()])
+	}
+	fn same(&self, o: &Self) -> bool {
+		self == o
+	}
+	fn min_wire() -> usize {
+		3
+	}
+}
+/// a zero-sized type whose encoding is one byte (single-variant enum), alone and as the last
+/// field of a transparent newtype; enums with exactly one encodable variant
+#[derive(Encode, Decode, DecodeWithMemTracking, MaxEncodedLen, Debug, PartialEq, Clone, Copy, Default)]
+pub enum Unit1 {
+	#[default]
+	#[codec(index = 9)]
+	Only,
+}
+#[derive(Encode, Decode, DecodeWithMemTracking, MaxEncodedLen, Debug, PartialEq, Clone)]
+#[repr(transparent)]
+pub struct TrE(pub u16, pub Unit1);
+#[derive(Encode, Decode, DecodeWithMemTracking, MaxEncodedLen, Debug, PartialEq, Clone)]
+pub enum OneV {
+	A(u32, u8),
+}
+#[derive(Encode, Decode, DecodeWithMemTracking, MaxEncodedLen, Debug, PartialEq, Clone)]
+pub enum OneSk {
+	// skipped variants do not count for the implicit index: B is variant 0 on the wire
+	#[codec(skip)]
+	S(u64),
+	B(u16),
+}
+impl Uni for Unit1 {
+	fn desc() -> String {
+		"(TEnum (VsCons 9 TUnit VsNil))".into()
+	}
+	fn gen(_: &mut Rng, _: u32) -> Self {
+		Unit1::Only
+	}
+	fn val(&self) -> String {
+		"(VVar 0 VUnit)".into()
+	}
+	fn same(&self, o: &Self) -> bool {
+		self == o
+	}
+	fn min_wire() -> usize {
+		1
+	}
+}
+impl Uni for TrE {
+	fn desc() -> String {
+		nest("TPair", "TUnit", &[u16::desc(), Unit1::desc()])
+	}
+	fn gen(r: &mut Rng, d: u32) -> Self {
+		TrE(u16::gen(r, d), Unit1::Only)
+	}
+	fn val(&self) -> String {
+		nest("VPair", "VUnit", &[self.0.val(), self.1.val()])
+	}
+	fn same(&self, o: &Self) -> bool {
+		self == o
+	}
+	fn min_wire() -> usize {
+		3
+	}
+}
+impl Uni for OneV {
+	fn desc() -> String {
+		format!("(TEnum (VsCons 0 {} VsNil))", nest("TPair", "TUnit", &[u32::desc(), u8::desc()]))
+	}
+	fn gen(r: &mut Rng, d: u32) -> Self {
+		OneV::A(u32::gen(r, d), u8::gen(r, d))
+	}
+	fn val(&self) -> String {
+		let OneV::A(a, b) = self;
+		format!("(VVar 0 {})", nest("VPair", "VUnit", &[a.val(), b.val()]))
+	}
+	fn same(&self, o: &Self) -> bool {
+		self == o
+	}
+	fn min_wire() -> usize {
+		6
+	}
+}
+impl Uni for OneSk {
+	fn desc() -> String {
+		format!("(TEnum (VsCons 0 {} VsNil))", nest("TPair", "TUnit", &[u16::desc()]))
+	}
+	fn gen(r: &mut Rng, d: u32) -> Self {
+		OneSk::B(u16::gen(r, d))
+	}
+	fn val(&self) -> String {
+		match self {
+			OneSk::B(a) => format!("(VVar 0 {})", nest("VPair", "VUnit", &[a.val()])),
+			OneSk::S(_) => "(VVar 99 VUnit)".into(),
+		}
 	}
 	fn same(&self, o: &Self) -> bool {
 		self == o
